@@ -5,6 +5,7 @@ import (
 	"go/token"
 	"go/types"
 	"regexp"
+	"sort"
 	"strings"
 
 	"golang.org/x/tools/go/ssa"
@@ -97,6 +98,75 @@ func checkC05(c *Ctx) {
 	c5Increase(c)
 	c5WriteGuard(c)
 	c5Atomic(c)
+	c5EnabledCheap(c, impls)
+}
+
+// c5EnabledCheap: "a disabled entry causes no field marshaling, no entry-hook call and no sink activity". The cheap
+// pre-check of every front end is Core.Enabled, so nothing reachable from any Core implementation's Enabled may
+// derive a core (With), marshal fields, run a hook or touch an encoder/sink.
+func c5EnabledCheap(c *Ctx, impls []*types.Named) {
+	c.Rule("R5.7", "Enabled of every Core implementation reaches no With / field marshaling / hook / encoder / sink call", 4)
+	heavy := func(cl ssa.CallInstruction) string {
+		cc := cl.Common()
+		var f *types.Func
+		if cc.IsInvoke() {
+			f = cc.Method
+		} else {
+			f = CalleeFunc(cl)
+		}
+		if f == nil {
+			if _, isB := cc.Value.(*ssa.Builtin); isB {
+				return ""
+			}
+			if _, isMk := cc.Value.(*ssa.MakeClosure); isMk {
+				return ""
+			}
+			return "" // dynamic call of a func value: user enablers (LevelEnablerFunc) are outside zap's control
+		}
+		full := f.FullName()
+		switch {
+		case strings.HasSuffix(full, "zapcore.Core).With"), strings.HasSuffix(full, "zapcore.Core).Write"), strings.HasSuffix(full, "zapcore.Core).Sync"), strings.HasSuffix(full, "zapcore.Core).Check"):
+			return full
+		case f.Name() == "AddTo" && strings.Contains(full, "zapcore.Field"), full == "go.uber.org/zap/zapcore.addFields":
+			return full
+		case strings.Contains(full, "zapcore.Encoder)."), strings.Contains(full, "zapcore.ObjectEncoder)."), strings.Contains(full, "zapcore.WriteSyncer)."), full == "(io.Writer).Write":
+			return full
+		case strings.Contains(full, "zapcore.ObjectMarshaler)."), strings.Contains(full, "zapcore.ArrayMarshaler)."):
+			return full
+		}
+		return ""
+	}
+	for _, t := range impls {
+		fn := c.Method(t.Obj().Pkg().Path(), t.Obj().Name(), "Enabled")
+		tn := t.Obj().Pkg().Path() + "." + t.Obj().Name()
+		if fn == nil || len(fn.Blocks) == 0 || fn.Synthetic != "" {
+			c.Triv("R5.7", tn, "Enabled", t.Obj().Pos(), "Enabled is promoted from an embedded enabler/core (decided at that type)")
+			continue
+		}
+		seen := map[*ssa.Function]bool{}
+		var bad []string
+		var rec func(f *ssa.Function, depth int)
+		rec = func(f *ssa.Function, depth int) {
+			if f == nil || seen[f] || depth > 6 || len(f.Blocks) == 0 || !curProgRoot(f) {
+				return
+			}
+			seen[f] = true
+			for _, g := range WithClosures(f) {
+				seen[g] = true
+				for _, cl := range Calls(g) {
+					if h := heavy(cl); h != "" {
+						bad = append(bad, g.Name()+" calls "+h)
+						continue
+					}
+					if sc := StaticCallee(cl); sc != nil {
+						rec(sc, depth+1)
+					}
+				}
+			}
+		}
+		rec(fn, 0)
+		c.Check(len(bad) == 0, "R5.7", fn.String(), "cheap", fn.Pos(), "nothing reachable from Enabled (%d zap functions incl. closures) derives a core, marshals a field, runs a hook or touches an encoder or sink, so a disabled entry costs none of those: %v", len(seen), bad)
+	}
 }
 
 func c5Check(c *Ctx, tn, class string, fn *ssa.Function) {
@@ -480,42 +550,94 @@ func c5Levels(c *Ctx, impls []*types.Named) {
 	lo := c.Func(CorePath, "LevelOf")
 	if c.Anchor("R5.3", "zapcore.LevelOf", lo != nil) {
 		name := lo.String()
-		var en *ssa.Call
-		for _, cl := range Calls(lo) {
-			if isEnabledCall(cl) {
-				en, _ = cl.(*ssa.Call)
-			}
-		}
-		if en == nil {
-			c.Bad("R5.3", name, "scan", lo.Pos(), "no Enabled probe")
+		// Path exploration with the loop counter evident on every path: which levels are probed, in which order,
+		// and what is returned after each possible sequence of answers.
+		seqs, trunc := ConcPaths(lo, ConcCfg{
+			Unroll: true,
+			Event: func(in ssa.Instruction, st *ConcState) string {
+				switch x := in.(type) {
+				case *ssa.Call:
+					if isEnabledCall(x) {
+						a := Args(x)
+						if k, ok := st.Int(a[len(a)-1]); ok {
+							return "probe(" + itoa(int(k)) + ")"
+						}
+						return "probe(?" + st.Desc(a[len(a)-1]) + ")"
+					}
+					if f := CalleeFunc(x); f != nil && f.Name() == "Level" && x.Call.IsInvoke() {
+						return "own-level"
+					}
+				case *ssa.Return:
+					if k, ok := st.Int(x.Results[0]); ok {
+						return "ret(" + itoa(int(k)) + ")"
+					}
+					rv := Strip(x.Results[0])
+					for k := 0; k < 8; k++ {
+						if rc, ok := rv.(*ssa.Call); ok {
+							if f := CalleeFunc(rc); f != nil && f.Name() == "Level" && rc.Call.IsInvoke() {
+								return "ret(own-level)"
+							}
+						}
+						nx := st.Step(rv)
+						if nx == nil {
+							break
+						}
+						rv = Strip(nx)
+					}
+					return "ret(?" + st.Desc(x.Results[0]) + ")"
+				}
+				return ""
+			},
+			Branch: func(cond ssa.Value, taken bool, st *ConcState) string {
+				cv := cond
+				pol := taken
+				for k := 0; k < 8; k++ {
+					if u, ok := cv.(*ssa.UnOp); ok && u.Op == token.NOT {
+						cv, pol = u.X, !pol
+						continue
+					}
+					if nx := st.Step(cv); nx != nil {
+						cv = nx
+						continue
+					}
+					break
+				}
+				if cl, ok := cv.(*ssa.Call); ok && isEnabledCall(cl) {
+					if pol {
+						return "yes"
+					}
+					return "no"
+				}
+				return ""
+			},
+		})
+		if trunc || len(seqs) == 0 {
+			c.Und("R5.3", name, "scan", lo.Pos(), "path exploration of LevelOf incomplete (%d sequences, truncated=%v)", len(seqs), trunc)
 			return
 		}
-		ph, isPhi := Strip(en.Call.Args[0]).(*ssa.Phi)
-		okScan := false
-		detail := ""
-		if isPhi {
-			lo1, hi1, step, incl := loopRange(ph)
-			okScan = lo1 == minL && hi1 == maxL && step == 1 && incl
-			detail = "from " + itoa(int(lo1)) + " to " + itoa(int(hi1)) + " step " + itoa(int(step))
+		want := map[string]bool{"own-level ; ret(own-level)": true}
+		pre := ""
+		for l := minL; l <= maxL; l++ {
+			pre += "probe(" + itoa(int(l)) + ") ; "
+			want[pre+"yes ; ret("+itoa(int(l))+")"] = true
+			pre += "no ; "
 		}
-		c.Check(okScan, "R5.3", name, "scan-range", en.Pos(), "LevelOf probes Enabled for every level %s (must be _minLevel..=_maxLevel ascending)", detail)
-		// returns: the probed level under Enabled, InvalidLevel at the end, Level() of a leveledEnabler
-		for k, r := range Returns(lo) {
-			v := Strip(RetVals(r)[0])
-			switch {
-			case isPhi && v == ssa.Value(ph):
-				ok := HasAtom(Guards(r), func(s string) bool { return s == Desc(en) })
-				c.Check(ok, "R5.3", name, "return-first-enabled#"+itoa(k+1), r.Pos(), "returns the probed level only when Enabled said yes")
-			default:
-				if cv, isC := ConstInt(v); isC {
-					c.Check(cv == inv, "R5.3", name, "return-invalid#"+itoa(k+1), r.Pos(), "falls through to InvalidLevel (%d)", cv)
-				} else if call, isCall := v.(*ssa.Call); isCall && CalleeFunc(call) != nil && CalleeFunc(call).Name() == "Level" {
-					c.OK("R5.3", name, "return-own-level#"+itoa(k+1), r.Pos(), "defers to the enabler's own Level()")
-				} else {
-					c.Bad("R5.3", name, "return#"+itoa(k+1), r.Pos(), "unexpected return %s", Desc(v))
-				}
+		want[pre+"ret("+itoa(int(inv))+")"] = true
+		var bad, missing []string
+		got := map[string]bool{}
+		for _, sq := range seqs {
+			got[sq] = true
+			if !want[sq] {
+				bad = append(bad, sq)
 			}
 		}
+		for w := range want {
+			if !got[w] {
+				missing = append(missing, w)
+			}
+		}
+		sort.Strings(missing)
+		c.Check(len(bad) == 0 && len(missing) == 0, "R5.3", name, "scan", lo.Pos(), "all %d paths of LevelOf (loop walked level by level, every Enabled answer free): a leveled enabler's own Level(), else Enabled is probed for %d..%d ascending, the first level answered yes is returned, InvalidLevel (%d) when every answer is no (unexpected paths %v; missing %v)", len(seqs), minL, maxL, inv, bad, missing)
 	}
 }
 
